@@ -414,20 +414,24 @@ func computeTimezoneKind(val string, idx int) (TimezoneKind, error) {
 }
 
 func roundFractionalSeconds(val string, idx int, kind TimezoneKind) (Timestamp, error) {
-	// Convert to float to perform rounding.
-	floatValue, err := strconv.ParseFloat(val[18:idx], 64)
+	// val[18] is the units digit of the seconds, val[19] the decimal point and val[20:idx]
+	// at least nine fraction digits. Round to nine digits in integer arithmetic
+	// (nearest nanosecond, ties up); float64 cannot hold more than 15-17 digits.
+	if !isDigit(int(val[18])) {
+		return invalidTimestamp(val)
+	}
+	units, err := strconv.ParseInt(val[18:19]+val[20:29], 10, 64)
 	if err != nil {
 		return invalidTimestamp(val)
+	}
+	if idx > 29 && val[29] >= '5' {
+		units++
 	}
 
-	roundedStringValue := fmt.Sprintf("%.9f", floatValue)
-	roundedFloatValue, err := strconv.ParseFloat(roundedStringValue, 64)
-	if err != nil {
-		return invalidTimestamp(val)
-	}
+	roundedStringValue := fmt.Sprintf("%d.%09d", units/1000000000, units%1000000000)
 
 	// Microsecond overflow 9.9999999999 -> 10.00000000.
-	if roundedFloatValue == 10 {
+	if units == 10000000000 {
 		roundedStringValue := "9.000000000"
 		val = val[:18] + roundedStringValue + val[idx:]
 		timeValue, err := time.Parse(TimestampPrecisionNanosecond.Layout(kind, 9), val)
